@@ -150,4 +150,5 @@ func c16A1(r *core.R) {
 			r.OK(pat.name, fi.Decl.Pos(), "%d member orders of two rings cut into 5 ways, other members in between: every way member ends up annotated with the direction in which it runs around its ring, nothing else is touched", n)
 		}
 	}
+	c16A1Rings(e, fi, sig)
 }
